@@ -55,6 +55,8 @@ package gocvss40
 //@   ensures[frame_other_metrics] (forall-in (m 0 31) (=> (not (and (isnil result) (= m (midx40 abv)))) (= (field40 cvss40 m) (field40 (old cvss40) m))))
 //@   ensures[fail_unchanged] (=> (not (isnil result)) (= cvss40 (old cvss40)))
 //@   ensures[wf_preserved] (wf40 cvss40)
+//@   ensures[vals_array] (=> (isnil result) (= (valsarr40 cvss40) (store (valsarr40 (old cvss40)) (midx40 abv) (vcode40 (midx40 abv) value))))
+//@   ensures[error_value] (=> (not (isnil result)) (= result (ite (< (midx40 abv) 0) (PErr T_ErrInvalidMetric abv) ErrInvalidMetricValue)))
 //@   ensures[err_unknown_metric] (=> (< (midx40 abv) 0) (and (is-ErrInvalidMetric result) (str= (pabv result) abv)))
 //@   ensures[err_illegal_value] (=> (and (>= (midx40 abv) 0) (= (vcode40 (midx40 abv) value) #xff)) (= result ErrInvalidMetricValue))
 //@   allocs 0
@@ -100,3 +102,28 @@ package gocvss40
 //@   ensures[be]  (= (str= result "CVSS-BE")  (and (not (threatDefined40 cvss40)) (envDefined40 cvss40)))
 //@   ensures[bte] (= (str= result "CVSS-BTE") (and (threatDefined40 cvss40) (envDefined40 cvss40)))
 //@   allocs 0
+
+// ---- ParseVector (C01, C06, C13, C18) against the reference fold parseRes40 ----
+
+//@ smt (define-fun flat40 ((g Int) (k Int)) Int (+ (goff40 g) k))
+//@ smt (define-fun validpos40 ((g Int) (k Int)) Bool (and (<= 0 g) (<= g NGROUPS40) (<= 0 k) (or (< k (gsize40 g)) (and (= g NGROUPS40) (= k 0)))))
+
+//@ func ParseVector(vector)
+//@   opt split_returns
+//@   callee_posts (*CVSS40).Set ok_iff_legal wf_preserved vals_array error_value
+//@   loop 1 invariant[bounds] (and (<= 0 cut) (< cut i) (<= i (+ (- (len vector) 8) 1)) (or (<= i (- (len vector) 8)) (= cut (- (len vector) 8))) (hasHeader40 vector) (validpos40 slci orderi))
+//@   loop 1 invariant[nosep] (forall ((p Int)) (! (=> (and (< (+ (+ vector.off 8) cut) p) (< p (+ (+ vector.off 8) i))) (not (= (select vector.arr p) #x2f))) :pattern ((select vector.arr p))))
+//@   loop 1 invariant[fold] (let ((V (substr vector 8 (len vector)))) (= (fold40 V 0 0 noVals) (fold40 V cut (flat40 slci orderi) (valsarr40 cvss40))))
+//@   loop 1 invariant[wf] (wf40 cvss40)
+//@   loop 1 decreases (- (+ (len vector) 2) i)
+//@   loop 2 invariant[walk] (let ((M (midx40 abv)) (P (flat40 (outer slci) (outer orderi))) (F (flat40 slci orderi))) (and (validpos40 slci orderi) (<= P F) (not (and (<= P M) (< M F))) (=> (< P NMAND40) (= F P))))
+//@   loop 2 decreases (- 33 (flat40 slci orderi))
+//@   lemma[element_end] after Cut#1 (let ((V (substr vector 8 (len vector)))) (= (nextsep V (+ cut 1)) i))
+//@   assume_def[unfold_fold_at_element] after Cut#1 (let ((V (substr vector 8 (len vector)))) (fold40_def V cut (flat40 slci orderi) (valsarr40 cvss40)))
+//@   assume_def[unfold_fold_at_element_bad_start] after HasPrefix#2 (let ((V (substr vector 8 (len vector)))) (fold40_def V cut (flat40 slci orderi) (valsarr40 cvss40)))
+//@   assume_def[unfold_fold_at_end] exit loop1 (let ((V (substr vector 8 (len vector)))) (fold40_def V cut (flat40 slci orderi) (valsarr40 cvss40)))
+//@   ensures[spec_error] (= result.1 (p.err (parseRes40 vector)))
+//@   ensures[accept_iff_grammar] (= (isnil result.1) (= (p.err (parseRes40 vector)) Nil))
+//@   ensures[accept_implies_prefix] (=> (isnil result.1) (hasHeader40 vector))
+//@   ensures[accept_object] (=> (isnil result.1) (and (not (isnil result.0)) (wf40 (deref result.0)) (forall-in (m 0 31) (= (field40 (deref result.0) m) (select (p.vals (parseRes40 vector)) m)))))
+//@   ensures[reject_nil] (=> (not (isnil result.1)) (isnil result.0))
